@@ -138,6 +138,11 @@ class SimFuture:
                 clock.mono_us = give_up                 # still queued behind an abandoned operation
                 raise TimeoutError()
         clock.mono_us = start
+        st = env.peek_step()
+        if st.get("kind") == "base" and st.get("signal"):
+            # a signal handler raises in the WAITING thread while the operation keeps the worker busy
+            self.ex.busy_until = start + st.get("dur", 0)
+            env.op_sync_signalled()          # logs the started operation and raises the interruption here
         d = env.peek_op_dur()
         if timeout is None or start + d <= give_up:
             try:
@@ -174,7 +179,8 @@ class SimExecutor:
         return SimFuture(self, (lambda: func(*a, **k)) if (a or k) else func)
 
     def shutdown(self, wait=True, cancel_futures=False):
-        pass
+        if wait and self.busy_until > B.clock.mono_us:
+            B.clock.mono_us = self.busy_until        # joining the worker: blocked until the running operation returns
 
 
 def _executor_factory(*a, **k):
